@@ -365,11 +365,76 @@ def run(ctx):
 
     abort_handler(ctx, fx)
     owner_computes(ctx, fx)
+    stable_iterator(ctx, fx)
     from . import wl_locks
     fxl = ctx.load("src", "drv_foreach", "wlcompile")
     wl_locks.check(ctx, fxl, prefix="C01")
     from . import wl_own
     wl_own.check(ctx, fxl, prefix="C01")
+
+
+def stable_iterator(ctx, fx):
+    """populateSteal() overwrites the owner's shared range [stealBegin, stealEnd). That is only safe when the range is
+    empty. Either populateSteal itself tests emptiness under the lock before overwriting, or every populateSteal call in
+    pop_steal is preceded by a self-steal that cannot fail because of contention (blocking lock, not try_lock)."""
+    SI = "galois::worklists::StableIterator"
+    ctx.rule("C01.stable.no-overwrite-of-shared-range",
+             "StableIterator<steal>: the owner's shared steal range is overwritten (populateSteal) only when it is empty: "
+             "populateSteal tests emptiness under the lock, or the self-steal that precedes it in pop_steal takes the lock "
+             "unconditionally (a try_lock that fails under contention would let populateSteal drop the thief's remainder)")
+    pops = [f for f in fx.functions if f["qn"] == SI + "::pop_steal" and f["kind"] == "inst"]
+    ctx.floor("StableIterator::pop_steal instantiations", len(pops), 1)
+    for f in pops:
+        fn = ctx.fn(f)
+        ps = is_call(name="populateSteal")
+        if not any(True for _ in fn.events(ps)):
+            continue
+        ds = [(p, e) for p, e in fn.events(is_call(name="doSteal"))]
+        selfs = [(p, e) for p, e in ds if len(e.get("a", [])) >= 2 and S(e["a"][0]) == S(e["a"][1])]
+        det = []
+        # alternative 1: populateSteal guards the overwrite itself
+        guarded = False
+        for g in fx.functions:
+            if g["qn"] == SI + "::state::populateSteal" and g["kind"] == "inst" and g["clsk"].startswith(f["clsk"]):
+                gn = ctx.fn(g)
+                ow = lambda e: e.get("k") in ("assign",) and "stealEnd" in (e.get("lp") or "") or \
+                    (e.get("k") == "call" and e.get("op") == "=" and "stealEnd" in (e.get("rp") or ""))
+                emp = lambda t: "stealBegin" in S(t, gn.aliases()) and "stealEnd" in S(t, gn.aliases())
+                if any(True for _ in gn.events(ow)) and not gn.guarded_positions(ow, emp, True) and \
+                        not gn.guarded_positions(ow, emp, False):
+                    pass
+                if any(True for _ in gn.events(ow)) and (not gn.guarded_positions(ow, emp, False)):
+                    guarded = True
+        if not guarded:
+            if not selfs:
+                det.append("no self-steal before populateSteal")
+            for p, e in selfs:
+                # evaluate the callee under the constant arguments of this call
+                cal = [g for g in fx.functions if g["qn"] == SI + "::doSteal" and g["key"].startswith(e.get("fk", "?") + "(")]
+                if not cal:
+                    det.append("doSteal instantiation not found")
+                    continue
+                gn = ctx.fn(cal[0])
+                env = {}
+                for prm, a in zip(cal[0]["params"], e.get("a", [])):
+                    v = R.decide(a, {})
+                    if v is not None:
+                        env[prm["n"]] = v
+                eok = R.edges_under(gn, env)
+                tl = lambda x: x.get("k") == "call" and x.get("name") == "try_lock"
+                h, _ = gn.search([gn.entry_state()], stop=tl, edge_ok=eok)
+                if h:
+                    det.append("the self-steal uses try_lock: under contention it fails although the owner's shared range is "
+                               "not empty, and the later populateSteal overwrites that range")
+                lk = lambda x: x.get("k") == "call" and x.get("name") == "lock" and "stealLock" in (x.get("rp") or "")
+                h2, _ = gn.search([gn.entry_state()], stop=lk, edge_ok=eok)
+                if not h2:
+                    det.append("the self-steal never takes the steal lock")
+            for p, _ in fn.events(ps):
+                if fn.reaches_without(lambda x: x is fn.ev(p), lambda x: any(x is e for _, e in selfs)):
+                    det.append("populateSteal reachable without a preceding self-steal")
+        ctx.ob("C01.stable.no-overwrite-of-shared-range", SI + "::pop_steal", not det, "; ".join(sorted(set(det))), fn.loc(),
+               "stealRange", fnkey=f["key"])
 
 
 def owner_computes(ctx, fx):
